@@ -72,7 +72,7 @@ def run(tier):
             verdict.fail({"cls": e["cls"], "clause": clause, "cfg": {"par": e["par"], "value": e["value"], "outcome": e["outcome"]}},
                          {"probe": probes[fl["i"] - 1], "event": e, "clause": clause})
     # (b) NoGarbage over the admissible scan campaigns
-    nog = scans.scan_collect("C20", ("FIN",), fams({"FIN"}), tier, verdict)
+    nog = scans.scan_collect("C20", ("FIN",), fams({"FIN"}, extra=("EHEP", "EPpiston", "Mader")), tier, verdict)
     rc = verdict.finish()
     restr = {(p["r"]["cls"], p["r"]["par"], p["r"].get("rel", "member"), json.dumps(p["r"].get("b", p["r"].get("ok")))) for p in probes}
     cov = {"states": res["distinct"] + tv["states"] + nog["states"], "transitions": res["states"] + tv["generated"] + nog["transitions"],
